@@ -152,14 +152,14 @@ def corr_similarity(ctx, B):
         B.add("orbits", dict(op="apps.orbits", n=n), dict(imp=got, rec=got))
         ctx.count("orbits", ("orbits", n), n >= 2)
         K.chk_orbits(ctx, dict(n=n))
-    for _ in range(ctx.n(1200, 6000)):
+    for _ in range(ctx.n(2500, 8000)):
         s = rand_sample(rng)
         m = rng.randint(0, 5)
         B.add("sample_to_orbit", dict(op="apps.sampleToOrbit", s=s), ints(similarity.sample_to_orbit(list(s))))
         B.add("sample_to_event", dict(op="apps.sampleToEvent", s=s, m=m), similarity.sample_to_event(list(s), m))
         K.chk_sample_conv(ctx, dict(s=s, m=m))
         ctx.count("sample", ("sample", s, m), sum(s) >= 2, sample=dict(s=s, m=m))
-    for i in range(ctx.n(2500, 12000)):
+    for i in range(ctx.n(5000, 30000)):
         n = rng.randint(1, rng.choice([4, 8, 12, 25]))
         orbit = rand_partition(rng, n)
         r = rng.random()
@@ -323,7 +323,7 @@ def corr_sample(ctx, B):
 def oracle_big(ctx):
     """oracle only: larger graphs, shuffled insertion order, sparse labels (orders left to set iteration)"""
     rng = ctx.rng
-    for i in range(ctx.n(900, 6000)):
+    for i in range(ctx.n(2400, 16000)):
         n = rng.randint(2, ctx.n(11, 14) if ctx.boost == 1 else 11)
         gd = K.rand_graph(rng, n, labels=rng.choice(["range", "shuffled", "sparse"]))
         lab = "range" if gd["nodes"] == sorted(gd["nodes"]) else "relabelled"
@@ -369,7 +369,7 @@ def run(ctx, sf):
             for gd in K.all_graphs(n):
                 corr_graph_case(ctx, B, gd, rng, heavy=(n >= 2))
                 ctx.tally("exhaustive-graphs")
-    for i in range(ctx.n(1800, 9000)):
+    for i in range(ctx.n(4200, 24000)):
         n = rng.choice([1, 2, 3, 4, 4, 5, 5, 6, 6, 7, 8])
         corr_graph_case(ctx, B, K.rand_graph(rng, n, "range"), rng)
     corr_update_list(ctx, B)
